@@ -549,6 +549,13 @@ Definition f154_flags_eqb (x y : bool * Z * bool * Z) : bool :=
   let '(a1, b1, c1, d1) := x in let '(a2, b2, c2, d2) := y in
   Bool.eqb a1 a2 && (b1 =? b2) && Bool.eqb c1 c2 && (d1 =? d2).
 
+(* what parse derives from (version, modes, compression) is the layout emit writes *)
+Definition f154_layout_ok (ver dm sm : Z) (c : bool) : bool :=
+  match f154_flags ver dm sm c with
+  | Some fl => f154_flags_eqb fl (true, dm, negb c, sm)
+  | None => false
+  end.
+
 Definition f154_wf (r : f154_repr) : bool :=
   f154_has_addressing (f154_r_frame_type r) (f154_r_version r) &&
   negb (f154_r_security r) &&
@@ -562,9 +569,6 @@ Definition f154_wf (r : f154_repr) : bool :=
   match f154_r_dst_addr r, f154_r_src_addr r with
   | Some da, Some sa =>
       f154_addr_ok da && f154_addr_ok sa &&
-      match f154_flags (f154_r_version r) (f154_addr_mode da) (f154_addr_mode sa) (f154_r_compression r) with
-      | Some fl => f154_flags_eqb fl (true, f154_addr_mode da, negb (f154_r_compression r), f154_addr_mode sa)
-      | None => false
-      end
+      f154_layout_ok (f154_r_version r) (f154_addr_mode da) (f154_addr_mode sa) (f154_r_compression r)
   | _, _ => false
   end.
